@@ -101,6 +101,11 @@ def run_shard(shard, ctx):
         for nsec in (1, 2, 15, 16, 17, 31, 33, 129):
             for flen in (512, 511):
                 run_case({"kind": "fixed", "nsec": nsec, "flen": flen}, ctx)
+        # requests of more than 64 KiB / 128 sectors one after the other (each result is looked at again after the next call)
+        for flen in (512, 511):
+            run_case({"kind": "fixed", "nsec": 700, "flen": flen, "sector_requests": [[0, 200], [100, 200], [0, 129], [150, 300], [0, 700], [1, 699],
+                                                                                     [500, 200]],
+                      "requests": [[0, 200000], [5, 200000], [100000, 258400]]}, ctx)
         # the guest data itself begins with VHD structures (a nested image): footer copy of a dynamic / fixed disk, cxsparse
         for nested in ("dynamic-image", "fixed-footer", "cxsparse"):
             for flen in (512, 511):
